@@ -4,6 +4,7 @@ import Avfs.Lemmas.WFCreateCex
 import Avfs.Lemmas.WFRemove
 import Avfs.Lemmas.StepFacts
 import Avfs.Lemmas.WFCheck
+import Avfs.Lemmas.OrefaWF
 /-
   C05 — the namespace is always a well-formed tree with exact link counts.
   Subject: the MemFS model (Avfs.FS), tied to /repo by `corr memfs*` (results + internal node graph after every call);
@@ -81,6 +82,22 @@ theorem C05_detached_view_witness : ∃ (s : Store) (v : View) (p : Bytes), WF s
     implementation after every call) answers true, the graph satisfies the invariant `WF` and its entry names are valid -/
 theorem C05_wfCheck_sound (s : Store) (root : Ino) (h : wfCheck s root = true) : WF s root ∧ NamesOK s :=
   wfCheck_sound s root h
+
+/-! ### OrefaFS: tree and path index agree in every reachable state
+
+  `Orefa.OWF` (Lemmas/OrefaWF.lean): the root is indexed under "" and "/" only; every other indexed path is an entry of the
+  directory indexed under its parent path (`up`), every entry of an indexed directory is indexed under parent ++ "/" ++
+  name (`down`), index keys are unique, everything mentioned is allocated, a directory has one key, a node's link count
+  is the number of its keys, names are non-empty and separator-free, files and released nodes have no children map. -/
+
+/-- every state reachable from `orefafs.New()` through any sequence of calls of the model (all VFS calls, all handle
+    methods, composites) satisfies the invariant -/
+theorem C05_orefa_reachable {uid gid : Int} {st : Orefa.OState} (hr : Orefa.Reachable uid gid st) :
+    Orefa.OWF st.store :=
+  Orefa.OWF_reachable hr
+
+theorem C05_orefa_step {st : Orefa.OState} (h : Orefa.OWF st.store) (c : Call) : Orefa.OWF (Orefa.step st c).1.store :=
+  Orefa.OWF_step h c
 
 -- non-vacuity: the initial state of `memfs.New()` satisfies the executable invariant (test, by evaluation)
 #guard wfCheck initState.store 0
